@@ -69,6 +69,8 @@ type rCfg struct {
 	Blockers    int    `json:"blockers"`
 	Ample       bool   `json:"ample"` // concurrency >= every tick and instant bodies: nothing can be pending at a tick
 	Rendezvous  bool   `json:"rendezvous"`
+	StallEval   int    `json:"stall_eval"` // the trigger goroutine is held for stall_us right after this evaluation (1-based; 0 = never)
+	StallUs     int64  `json:"stall_us"`
 	MetricsRuns int    `json:"metrics_runs"`
 	RunIndex    int    `json:"run_index"`
 	Labels      string `json:"labels"`
@@ -86,16 +88,17 @@ type rTrace struct {
 }
 
 type rCase struct {
-	cfg        rCfg
-	build      func(wrap func(api.RateFunction) api.RateFunction) (*api.Trigger, error)
-	bodyMaxUs  int
-	failEvery  int
-	failEarly  bool // planned failures are marked at the START of the body (the flag must survive until the body ends)
-	panicEvery int
-	labels     map[string]string
-	opts       func(*options.RunOptions)
-	envKeys    []string
-	stageEnv   []string // file mode: environment each planned stage must provide ("K=V;K=V", keys in envKeys order)
+	cfg            rCfg
+	build          func(wrap func(api.RateFunction) api.RateFunction) (*api.Trigger, error)
+	bodyMaxUs      int
+	failEvery      int
+	failSetupOnRun int  // consecutive runs on one metrics instance: the setup of this run (1-based) fails
+	failEarly      bool // planned failures are marked at the START of the body (the flag must survive until the body ends)
+	panicEvery     int
+	labels         map[string]string
+	opts           func(*options.RunOptions)
+	envKeys        []string
+	stageEnv       []string // file mode: environment each planned stage must provide ("K=V;K=V", keys in envKeys order)
 }
 
 type rRec struct {
@@ -111,6 +114,9 @@ type rRec struct {
 	stageIdx  int
 	stageEnv  []string
 	stopDelay time.Duration
+	stallEval int
+	stallUs   int64
+	nEval     atomic.Int64
 	wedge     bool
 	atSummary chan struct{}
 	sumOnce   sync.Once
@@ -155,6 +161,9 @@ func (r *rRec) hook(point string, who any, n int64) {
 		}
 	case "iw.eval":
 		r.add(rEv{K: "eval", A: n, C: r.us()})
+		if k := r.nEval.Add(1); r.stallEval > 0 && int(k) == r.stallEval {
+			time.Sleep(time.Duration(r.stallUs) * time.Microsecond) // schedule control: the trigger goroutine is starved here
+		}
 	case "tp.stop.flagged":
 		r.mu.Lock()
 		r.stopG[curGoid()] = true
@@ -295,7 +304,8 @@ func leakedF1Goroutines() (int, string) {
 func runOne(c *ctx, rc rCase, m *metrics.Metrics) rTrace {
 	tr := rTrace{Cfg: rc.cfg}
 	rec := &rRec{t0: time.Now(), stopG: map[int64]bool{}, envKeys: rc.envKeys, stageEnv: rc.stageEnv,
-		stopDelay: time.Duration(rc.cfg.StopDelayUs) * time.Microsecond, wedge: rc.cfg.Wedge, atSummary: make(chan struct{})}
+		stopDelay: time.Duration(rc.cfg.StopDelayUs) * time.Microsecond, wedge: rc.cfg.Wedge, atSummary: make(chan struct{}),
+		stallEval: rc.cfg.StallEval, stallUs: rc.cfg.StallUs}
 	verifhook.Install(rec.hook)
 	defer verifhook.Install(nil)
 	var evalMu sync.Mutex
@@ -395,7 +405,11 @@ func runOne(c *ctx, rc rCase, m *metrics.Metrics) rTrace {
 				if rec.returned.Load() {
 					rec.afterE.Add(1)
 				}
-				rec.add(rEv{K: "end", A: id, B: h, C: rec.us(), D: out})
+				idEnd := "same-id"
+				if t.Iteration != strconv.FormatInt(id, 10) {
+					idEnd = "now-" + t.Iteration
+				}
+				rec.add(rEv{K: "end", A: id, B: h, C: rec.us(), D: out, S2: idEnd})
 			}()
 			if rc.failEarly && out == 1 && !pan {
 				t.Fail()
@@ -692,6 +706,16 @@ func buildCases(c *ctx) []rCase {
 		rc := constantCase("slow-pool-start", "1/2ms", 2*ms, 3000, 0, 80*ms, "none")
 		add(rc)
 	}
+	// the trigger goroutine starved for a few intervals around one tick (a loaded load-generator): the cadence bound
+	// holds afterwards too - the skipped ticks are not made up for, and the period is still the interval
+	for k := 0; k < c.pick(3, 8); k++ {
+		iv := []int64{10, 20, 25, 50}[k%4]
+		rc := constantCase("stalled-trigger", fmt.Sprintf("3/%dms", iv), iv*ms, 6, 0, 700*ms, "none")
+		rc.cfg.StallEval = 2 + k%3
+		rc.cfg.StallUs = iv*1000*2 + iv*1000*int64(1+c.rng.Intn(8))/10 // 2.1 .. 2.8 intervals
+		rc.bodyMaxUs = 2000
+		add(rc)
+	}
 	// a profile that is zero in the middle: zero-rate ticks are requests too (they supersede pending work)
 	add(rCase{cfg: rCfg{Name: "staged-zero-middle", Mode: "staged", RateMode: true, Conc: 1, MaxDurUs: 2000 * ms, IntervalUs: 20 * ms, Args: "0s:6,60ms:0,80ms:0,100ms:6"},
 		build: func(w func(api.RateFunction) api.RateFunction) (*api.Trigger, error) {
@@ -828,6 +852,18 @@ func buildCases(c *ctx) []rCase {
 		rc.labels = ls
 		rc.cfg.Labels = labelString(ls)
 		rc.cfg.MetricsRuns = 3
+		add(rc)
+	}
+	// a run whose setup fails, between two ordinary runs on the same metrics instance: it exports no iteration
+	// samples of its predecessor
+	for k := 0; k < 2; k++ {
+		rc := constantCase("metrics-runs-setup-fails", "40/10ms", 10*ms, 12, int64(120+k), 2000*ms, "none")
+		rc.bodyMaxUs = 300
+		rc.failEvery = 3
+		rc.labels = labelSets[k]
+		rc.cfg.Labels = labelString(labelSets[k])
+		rc.cfg.MetricsRuns = 3
+		rc.failSetupOnRun = 2 + k
 		add(rc)
 	}
 	// --- file mode: stages strictly sequential, environment per stage, users stage followed by another stage
@@ -1001,6 +1037,10 @@ func init() {
 			m := metrics.NewInstance(prometheus.NewRegistry(), true, rc.labels)
 			for run := 0; run < rc.cfg.MetricsRuns; run++ {
 				rc.cfg.RunIndex = run
+				if rc.failSetupOnRun > 0 {
+					rc.cfg.SetupFail = rc.failSetupOnRun == run+1
+					rc.cfg.SetupMode = "failnow"
+				}
 				for _, k := range rc.envKeys {
 					os.Unsetenv(k)
 				}
